@@ -650,6 +650,12 @@ func (e *Enc) encConvert(fr *Frame, st *State, in *ssa.Convert) *Val {
 				if g, ok := e.DB.Ghosts["strBytes"]; ok && len(g.Params) == 1 && g.Body == nil {
 					if n, _, err := e.ghostSymbol(g); err == nil {
 						e.assert(eq(e.bseqTerm("("+f+" "+x.L[0].T+")", "0", ln), "("+n+" "+x.L[0].T+")"))
+						// and back: string([]byte(s)) == s
+						if g2, ok := e.DB.Ghosts["strOfBytes"]; ok && len(g2.Params) == 1 && g2.Body == nil {
+							if n2, _, err := e.ghostSymbol(g2); err == nil {
+								e.assert(eq("("+n2+" ("+n+" "+x.L[0].T+"))", x.L[0].T))
+							}
+						}
 					}
 				}
 				return &Val{T: in.Type(), L: []Sc{{r, "Int"}, {"0", "Int"}, {ln, "Int"}, {ln, "Int"}}}
@@ -668,7 +674,14 @@ func (e *Enc) encConvert(fr *Frame, st *State, in *ssa.Convert) *Val {
 				// string(b) is a function of the abstract content of b (when the prelude declares ghost func strOfBytes)
 				if g, ok := e.DB.Ghosts["strOfBytes"]; ok && len(g.Params) == 1 && g.Body == nil {
 					if n, _, err := e.ghostSymbol(g); err == nil {
-						e.assert(eq(t, "("+n+" "+e.bseqTerm("(select "+h+" "+x.L[0].T+")", x.L[1].T, x.L[2].T)+")"))
+						bs := e.bseqTerm("(select "+h+" "+x.L[0].T+")", x.L[1].T, x.L[2].T)
+						e.assert(eq(t, "("+n+" "+bs+")"))
+						// and back: []byte(string(b)) has the content of b
+						if g2, ok := e.DB.Ghosts["strBytes"]; ok && len(g2.Params) == 1 && g2.Body == nil {
+							if n2, _, err := e.ghostSymbol(g2); err == nil {
+								e.assert(eq("("+n2+" "+t+")", bs))
+							}
+						}
 					}
 				}
 				return &Val{T: in.Type(), L: []Sc{{t, "Str"}}}
